@@ -82,14 +82,14 @@ EXPLANATION = (
     'reject_reasons (rejected although CPython can format => ArgumentIndexingMixture / ArgumentTypeMismatch / WidthRangeError / '
     'PrecisionRangeError), error_means_malformed. For all strings: reason_true (the documented reason given is true of the '
     'specifications the scanner reads: a literal width > 2^31-1; a literal precision > 2^31-1, or > 2^31-4 on an integer conversion; '
-    'a named and a positional specification; two specifications with one key and different types), error_own (only own Error classes; asserts and the termination '
+    'a named and a positional specification; two specifications with one key and different types), warnings_inert (recording '
+    'warnings changes neither acceptance, error class, argument lists nor items), error_own (only own Error classes; asserts and the termination '
     'device unreachable; int(ch) only sees one ASCII digit, so there is no digit-limit issue here). Pins: info_pin, types_pin, '
     'probes_pin (kernel evaluation of the model on ~1700 probed directives). Test-level only: the fidelity of Spec.CPyPercent to the '
     'interpreter (pyfmt-oracle stream against CPython 3.12.1, 64-bit; values abstracted to int/float/str/other; text and memory not '
     'modelled) and of the hand-written model to the code (pyfmt-* streams). Finding fixed in /repo: 84eb507 (integer conversions with '
     'literal precision 2^31-3..2^31-1 were accepted; CPython raises OverflowError for them whatever the argument). OUTSTANDING: '
-    'nothing of the design list is missing; not stated in Lean: arguments given as a single non-tuple value; that recording '
-    'warnings is inert (compared by the pyfmt-nowarn stream only).')
+    'nothing of the design list is missing; not stated in Lean: arguments given as a single non-tuple value.')
 
 if __name__ == '__main__':
     common.main_wrapper(main)
